@@ -300,6 +300,11 @@ pub mod verif_api {
     pub use std::collections::HashSet;
     #[cfg(feature = "verif_replay")]
     pub type IdVec = std::vec::Vec<u64>;
+    /// what `use std::collections::...;` lines of the keyspace actor are redirected to in the solver build
+    #[cfg(not(feature = "verif_replay"))]
+    pub mod coll {
+        pub use crate::vcoll::{BTreeMap, HashMap, RefSet as HashSet};
+    }
 
     /// (0 nothing | 1 live | 2 tombstone, stamp)
     pub fn view2(set: &OrSWotSet<2>, key: Key) -> (u8, u64) {
